@@ -390,6 +390,8 @@ def gen_cluster(rng, sid, replicas=None, nops=None, join=None):
     # (one partition over several members makes the consistent-hash library panic: not a C18 matter)
     # and the member count must never exceed the partition count)
     opts = {"members": members, "replicas": replicas, "partitions": rng.choice([p for p in (3, 7) if p > members]), "table": table}
+    if replicas > 1 and rng.random() < 0.4:
+        opts["async"] = True       # asynchronous replication: the backup is written by a goroutine that outlives Put
     nkeys = rng.choice([2, 3, 5])
     keys = [bytes([107, 48 + j]).hex() for j in range(nkeys)]
     maxv = rng.choice([8, 24, 48])
@@ -411,6 +413,8 @@ def gen_cluster(rng, sid, replicas=None, nops=None, join=None):
         path = rng.choice(PATHS if n != "getput" else ["own", "non", "cc"])
         if rng.random() < 0.45:
             path = "own"          # the only path that can share memory with the store
+        if n == "get" and replicas > 1 and rng.random() < 0.25:
+            path = "bak"          # the backup copy itself
         how = rng.choice(["byte", "byte", "string"])
         if n == "put":
             ops.append(["put", path, k, rbytes(rng, rng.randrange(1, maxv + 1)).hex()])
@@ -451,6 +455,22 @@ def gen_cluster(rng, sid, replicas=None, nops=None, join=None):
         elif n == "readbuf" and nb:
             ops.append(["readbuf", rng.randrange(nb)])
     ops += tail(nh, nb, [["get", "own", k, "byte"] for k in keys])
+    return {"id": sid, "level": "cluster", "opts": opts, "dmap": "d", "ops": ops}
+
+
+def gen_async_reuse(rng, sid):
+    """asynchronous replication: the caller's buffer is reused right after Put returned; the backup copies, written by a
+    goroutine that may still be running, must hold what was passed to Put"""
+    opts = {"members": 2, "replicas": 2, "partitions": 3, "table": 512, "async": True}
+    keys = [bytes([107, 48 + j]).hex() for j in range(8)]
+    ops = [["buf", rbytes(rng, 40).hex()]]
+    for rnd in range(3):
+        for k in keys:
+            ops.append(["putbuf", "own", k, 0])
+            ops.append(["mutbuf", 0, rng.randrange(0, 40), rng.randrange(256)])
+        for k in keys:
+            ops.append(["get", "bak", k, "byte"])
+            ops.append(["get", rng.choice(["own", "cc"]), k, "byte"])
     return {"id": sid, "level": "cluster", "opts": opts, "dmap": "d", "ops": ops}
 
 
@@ -503,6 +523,8 @@ def scenarios(res):
                 scs.append(g(rng, 0, replicas=1 if i % 3 else 2))
             else:
                 scs.append(g(rng, 0))
+    for i in range(2 if quick else 12):
+        scs.append(gen_async_reuse(vlib.rng_for(res.seed, PID, "async", i), 0))
     for i, s in enumerate(scs):
         s["id"] = i
     return scs
